@@ -1,6 +1,6 @@
 SPECIFICATION GenSpec
-CONSTANTS DimSeq <- Dims4 MaskSeq <- Masks17 CliSeq <- Clis2 DestSeq <- NoSeq PathSeq <- NoSeq Toks <- None
-  Impl = "c" WithAll = TRUE Acts <- ActsTxt MaxTab = 6
+CONSTANTS DimSeq <- Dims4 MaskSeq <- Masks17 CliSeq <- Clis1 DestSeq <- NoSeq PathSeq <- NoSeq Toks <- None
+  Impl = "c" WithAll = TRUE Acts <- ActsTxt MaxTab = 4
   ItemSet <- ItemsQ MaxItems = 3 GapSet <- Gaps1 EdgeGaps <- Edge0
   Letters <- None MaxLetters = 0 LetterGaps <- None NodeSet <- None MaxNodes = 0
 CONSTRAINT Bound
